@@ -21,7 +21,13 @@ type ChannelListener struct {
 }
 
 func (ln *ChannelListener) SendToChannel(conn net.Conn) {
-	ln.channel <- conn
+	select {
+	case ln.channel <- conn:
+	case <-ln.context.Done():
+		// the listener is closed, nobody is going to accept this
+		// connection any more: close it instead of blocking forever
+		conn.Close()
+	}
 }
 
 func (ln *ChannelListener) Accept() (net.Conn, error) {
